@@ -272,6 +272,10 @@ func (v *Protocol) parseAMFObject(p []byte) (pkt Packet, err error) {
 		}
 	case commandConnect:
 		return NewConnectAppPacket(), nil
+	case commandCreateStream:
+		return NewCreateStreamPacket(), nil
+	case commandPlay:
+		return NewPlayPacket(), nil
 	case commandPublish:
 		return NewPublishPacket(), nil
 	default:
